@@ -125,3 +125,19 @@ theorem C06_sums_partition (cent : Fin (K+1) → Fin D → ℝ) (xs : List (Fin 
     · simp
     · intro k _ hk; simp [Ne.symm hk]
     · intro h; exact absurd (Finset.mem_univ _) h
+
+theorem flatten_filter_nonempty {β : Type} (blocks : List (List β)) :
+    (blocks.filter fun b => !b.isEmpty).flatten = blocks.flatten := by
+  induction blocks with
+  | nil => rfl
+  | cons b bs ih =>
+    cases b with
+    | nil => simpa [List.filter_cons] using ih
+    | cons x xs => simp [List.filter_cons, ih]
+
+/-- zero-row blocks (what filtering or concatenating Dask arrays leaves in a chunking) change nothing:
+the iteration on a list of blocks equals the iteration on the same list with its empty blocks removed,
+wherever they stand -/
+theorem C06_zero_row_blocks_irrelevant (cent : Fin (K+1) → Fin D → ℝ) (blocks : List (List (Fin D → ℝ))) :
+    kIter blocks cent = kIter (blocks.filter fun b => !b.isEmpty) cent := by
+  rw [C06_chunking_independent cent blocks, C06_chunking_independent cent (blocks.filter _), flatten_filter_nonempty]
